@@ -14,8 +14,8 @@ from checks import c12, c13
 
 PID = "C04"
 SPEC, CFG, DIAG = "Tr_Mate.tla", "Tr_Mate.cfg", "Tr_Mate_diag.cfg"
-SIZES = {"quick": dict(harvest=96, maxn=2, tb_classes=5, tb_per=10, depths=[1, 2, 3, 4, 5, 6], certmax=3),
-         "thorough": dict(harvest=1500, maxn=3, tb_classes=36, tb_per=60, depths=list(range(1, 13)), certmax=4)}
+SIZES = {"quick": dict(harvest=96, maxn=2, tb_classes=5, tb_per=10, depths=[1, 2, 3, 4, 5, 6], certmax=3, tactical=1600),
+         "thorough": dict(harvest=1500, maxn=3, tb_classes=36, tb_per=60, depths=list(range(1, 13)), certmax=4, tactical=40000)}
 MATE1_FAMILIES = [
     "6k1/5ppp/8/8/8/8/8/R3K3 w Q - 0 1", "k7/2P5/1K6/8/8/8/8/8 w - - 0 1", "7k/5P1p/7K/8/8/8/8/8 w - - 0 1",
     "r3k2r/8/8/8/8/8/8/4K2R b kq - 0 1", "5rk1/5ppp/8/8/8/8/8/4RK2 w - - 0 1", "4k3/8/8/8/8/8/3q4/R3K2r w Q - 0 1",
@@ -46,7 +46,7 @@ def engine_run(bdir, fen, depth, net, opts):
 
 def run(tier, seed):
     rep = vlib.Report(PID, tier, seed, "model_checking")
-    bdir, _ = vlib.build("plain", ["h_mate", "h_tb"] + ["texel-" + n for n in sessions.NETS])
+    bdir, _ = vlib.build("plain", ["h_mate", "h_tb", "h_fens"] + ["texel-" + n for n in sessions.NETS])
     wd = vlib.rundir(PID)
     sz = SIZES[tier]
     rnd = random.Random(seed * 17 + 4)
@@ -82,6 +82,14 @@ def run(tier, seed):
         decisive.sort(key=lambda r: abs(abs(r["v"]) - 32000))     # short mates first: reachable by a shallow search
         for r in decisive[:sz["tb_per"]]:
             roots.append({"fen": c13.row_fen(r, 0), "known_n": None, "row": r})
+    # ordinary tactical positions (no mate known): a false mate announcement needs a particular pruning situation, so many are searched
+    ntact0 = len(roots)
+    pthin = vlib.sh([os.path.join(bdir, "h_fens"), str(seed + 78), str(sz["tactical"]), "thin"], timeout=900)
+    thin = [json.loads(l) for l in pthin.stdout.strip().split("\n") if l]
+    for r in sessions.corpus(bdir, seed + 77, sz["tactical"] // 3) + thin:
+        if r["nlegal"] > 0 and r["cat"] in ("game", "synth", "sparse", "promo", "single", "thin"):
+            fen = " ".join(r["fen"].split()[:4]) + " 0 1"
+            roots.append({"fen": fen, "known_n": None, "row": None, "tact": True})
     # ---- engine sessions
     jobs = []
     for i, r in enumerate(roots):
@@ -93,7 +101,9 @@ def run(tier, seed):
         if rnd.random() < 0.5:
             opts["Hash"] = rnd.choice([1, 4, 64])
         ds = [d for d in sz["depths"]]
-        if r["known_n"] == 1:
+        if r.get("tact"):
+            use = [rnd.choice([5, 6, 6, 7])]
+        elif r["known_n"] == 1:
             use = ds[:4] if tier == "quick" else ds      # mate-in-one clause: every completed depth
         else:
             use = [rnd.choice(ds[2:]), ds[-1]] if tier == "quick" else rnd.sample(ds, 4)
@@ -214,6 +224,7 @@ def run(tier, seed):
         raise vlib.ToolFailure("solver certificate rejected by TLC: " + rep.violations[0][1][:300])
     rep.cov.update(stats)
     rep.cov["roots"] = len(roots)
+    rep.cov["tactical_roots_without_known_mate"] = len(roots) - ntact0
     rep.cov["mate_in_one_families"] = families
     rep.cov["searches"] = len(jobs)
     rep.cov["evaluations"] = len(jobs)
